@@ -125,6 +125,12 @@ Theorem C11_multi_error_irrelevant : forall b i, handler (with_multi b i) = hand
 Proof. exact multi_irrelevant. Qed.
 Print Assumptions C11_multi_error_irrelevant.
 
+(* errors that earlier handlers of the gin chain left in c.Errors do not reach the reply: it
+   is a function of THIS pipeline's (response, error) pair *)
+Theorem C11_context_errors_irrelevant : forall l i, handler (with_ctx_errs l i) = handler i.
+Proof. exact ctx_errs_irrelevant. Qed.
+Print Assumptions C11_context_errors_irrelevant.
+
 (* the independently written implementations send the same two headers *)
 Theorem C11_impls_agree : forall i im1 im2 o1 o2,
   meta_disjoint i ->
@@ -155,7 +161,7 @@ Definition ex_resp (meta : list (string * list string)) (complete : bool) : resp
   {| r_data := Some [("k", JStr "v")]; r_complete := complete; r_meta := meta; r_status := 0; r_io := None |}.
 Definition ex_input (im : impl) (r : option resp) (e : option perr) (ttl : Z) : input :=
   {| i_impl := im; i_render := RJson; i_resp := r; i_err := e; i_ttl := ttl; i_ctx_done := false;
-     i_errf := 500; i_ver := "Version undefined" |}.
+     i_errf := 500; i_ver := "Version undefined"; i_ctx_errs := [] |}.
 
 Example C11_ex_names : (H_completed, H_cache, H_version) = ("X-Krakend-Completed", "Cache-Control", "X-Krakend").
 Proof. vm_compute. reflexivity. Qed.
@@ -202,6 +208,10 @@ Example C11_ex_panic :
   exists o, handler (ex_input Gin None (Some {| e_status := Some 0%Z; e_multi := false; e_msg := "" |}) 0) = Reply o
             /\ o_status o = 200%Z.
 Proof. split; [|eexists]; vm_compute; repeat split; reflexivity. Qed.
+Example C11_ex_ctx_errs :
+  let e := Some {| e_status := Some 418%Z; e_multi := false; e_msg := "tea" |} in
+  exists o, handler (with_ctx_errs [CEPlain; CEStatus 503; CEMeta] (ex_input Gin None e 0)) = Reply o /\ o_status o = 418%Z.
+Proof. eexists; vm_compute; split; reflexivity. Qed.
 (* the recorded finding has inputs, and they are recognised *)
 Example C11_ex_in_finding : forall im, in_finding (spoof_input im "x-krakend-completed" "true") = true.
 Proof. destruct im; vm_compute; reflexivity. Qed.
